@@ -53,6 +53,11 @@ CHECKS = {
    note="Trusted: Coq kernel/vm_compute; Model/Schedule.v, Model/PathSum.v, Model/PT.v; Python harness; back-end level injection. The equality of the two path sums given equal coefficients is by construction of the model (one path-sum function, two schedules); truncation error is explored, not proved.",
    technique="Coq proof (operational schedule models, induction over steps, lia) + differential correspondence against an exact path-sum model",
    design="3/C02"),
+ "C01": dict(
+   text="Theorems (Coq): the memory settings have their documented meaning for every N, dkmax >= 1, with/without additional correlation time, in both back-ends (cells_spec, long_memory_is_full); tiling over any ring and any twice-integrated correlation function: the cells of the first n steps sum to G(n)-G(0) at full memory and with cut-off plus unbounded additional correlation time, rectangles being exactly the omitted squares (tiling, rectangle_covers_omitted_squares); the independent-boson collapse over any commutative ring, every dimension, step count, memory setting and basis change: a diagonal inter-point propagator reduces the path sum to one path per basis index with the product amplitude (commuting_closed_form, by a sum-over-paths induction); the decoherence exponent vanishes for populations (populations_constant). Tied to /repo by the back-end path-sum correspondence (as C02), by influence_matrix's requested 2D integrals bit-for-bit on primitive floats and its matrix exactly (np.exp of the model's exact exponent), and by a search against the independent-boson closed form with Gamma from an independent quadrature.",
+   note="Trusted: Coq kernel/vm_compute + primitive floats; Model/Schedule.v, Model/Shapes.v, Model/PathSum.v; Python harness; exp enters only through 'exp of a sum = product of exps'. Partial: quadrature accuracy, SVD truncation error and the truncated-oscillator comparison are explored / not covered, not proved.",
+   technique="Coq proof (ring-generic sums over paths, telescoping sums, schedule closed forms) + differential correspondence (exact / bit-exact / 1e-8) + closed-form search",
+   design="3/C01"),
 }
 
 NOT_YET = {}
